@@ -76,9 +76,18 @@ Theorem C15_ordinal_last_word : forall z ws, cardinal_words z = Some ws ->
   ordinal_words z = Some (removelast ws ++ [ordinal_word (last ws [])]).
 Proof. exact ordinal_last_word. Qed.
 Print Assumptions C15_ordinal_last_word.
-(* FULL statement wanted: go_english src_tables ordinal (dec_text z) = std_english ordinal z for every z inside the
-   guard. NOT proved: the loop of dirR against the definition is compared on every run (table sweep + random
-   numbers up to 10^69) and its deviations are the refutations below. *)
+(* FULL statement wanted:  forall ordinal z, english_ok ordinal (Z.abs_N z) = true ->
+     go_english src_tables ordinal (dec_text z) = std_english ordinal z
+   (the loop of dirR writes the defined text wherever no group has a tens digit 2..9 with units 0, the 10^18 group is
+   zero, |z| < 10^66 and, for ordinals, the number does not end in 0 beyond 10..19).  PROVED ONLY as a bounded sweep by
+   kernel computation: for every n below 20000 and for 858 numbers spread over all magnitudes up to 10^67 (negative
+   ones included), cardinal and ordinal, the loop writes the defined text EXACTLY when english_ok holds. Beyond that the
+   loop is compared with the definition on every run (table sweep + random numbers up to 10^69). *)
+Theorem C15_english_loop_bounded_partial :
+  (sweep false 20 1000 = true /\ sweep true 20 1000 = true) /\
+  (forallb (english_agrees_z false) spread = true /\ forallb (english_agrees_z true) spread = true).
+Proof. exact (conj english_sweep_20000 english_spread). Qed.
+Print Assumptions C15_english_loop_bounded_partial.
 
 (* ======== "consume and move through the arguments as specified" — for both M and S (any b), any control record,
    and any function `rec` in the place of the recursive call ======== *)
@@ -158,6 +167,17 @@ Theorem C15_literal_run : forall n b T fuel c,
   process b T (n + fuel) c = process b T fuel (set_pos (emit c (sub (c_str c) (c_pos c) (c_pos c + n))) (c_pos c + n)).
 Proof. exact literal_run. Qed.
 Print Assumptions C15_literal_run.
+
+(* (12) At the sites of the integer and the Roman writer the two readings give the same result and add no taint, for
+   every control record and parameter list: these sites never leave the guard (consequences of (1) and (5)). *)
+Theorem C15_integer_site_coincides : forall base off colon at_ ps c z, (2 <= base <= 36)%N ->
+  arg_at c = Some (VInt z) -> dir_int true base off colon at_ ps c = dir_int false base off colon at_ ps c.
+Proof. exact integer_site_coincides. Qed.
+Print Assumptions C15_integer_site_coincides.
+Theorem C15_roman_site_coincides : forall colon c z, (1 <= z <= 3999)%Z -> arg_at c = Some (VInt z) ->
+  dir_radix true src_tables colon true [] c = dir_radix false src_tables colon true [] c.
+Proof. exact roman_site_coincides. Qed.
+Print Assumptions C15_roman_site_coincides.
 
 (* FULL statement wanted:  forall T fuel control args, untainted (M_run T fuel control args) = true ->
    fst (M_run T fuel control args) = fst (S_run fuel control args)   (inside the guard the model of the Go code
